@@ -32,6 +32,8 @@ func c10(r *core.Run) {
 	r.Rule("G1", "responses and events leave in store order: the get handler sends its response while its read transaction is still open (the Close is deferred, or no reply follows it); change events are published under the writer's transaction, so an event can then never overtake a response built from an older value", 1)
 	r.Rule("S1", "event selection: CreateEvent is invoked only on the before==nil edge with the after representation, DeleteEvent only on the after==nil edge (before non-nil); the resource id is IDToRID of the after, else the before representation", 3)
 	r.Rule("B1", "before-values are what get served (shared with C11.K2): the value a badgerstore write transaction caches is dead or refreshed by every mutation; the change handler diffs the reported before-value, so a stale one yields events relative to a state the client no longer holds", 1)
+	r.Rule("D2", "a changed value is seen as changed: Value.Equal - the only comparison the model and collection diffs use - compares encoded bytes and reference ids; it never decodes the two sides into interface{} (numbers become float64) nor compares with reflect.DeepEqual", 1)
+	c10EqualityOnBytes(r, "D2")
 	r.Rule("D1", "model diff: the delete action is stored exactly on the not-present edge of the lookup in the new map, a key is reported only where it is new or Value.Equal is false, and the resulting map is what ChangeEvent receives", 3)
 
 	c11CacheCoherence(r, "B1", "store/badgerstore")
@@ -644,4 +646,58 @@ func c10(r *core.Run) {
 func isEmptyIface(t types.Type) bool {
 	i, ok := types.Unalias(t).(*types.Interface)
 	return ok && i.Empty()
+}
+
+// c10EqualityOnBytes: whether a value changed is decided on its encoded bytes
+// (and reference ids). A comparison that first decodes both sides into
+// interface{} compares every JSON number as a float64: two different integers
+// beyond 2^53 (64-bit ids, nanosecond timestamps) are then "equal", no event is
+// published, and the client keeps the old number while get serves the new one.
+func c10EqualityOnBytes(r *core.Run, rule string) {
+	p := r.P
+	eq := methodNamed(p, "store", "Value", "Equal")
+	if eq == nil {
+		r.Unres(rule, "store.Value.Equal", "missing")
+		return
+	}
+	hasEmptyIface := func(t types.Type) bool {
+		var walk func(t types.Type, d int) bool
+		walk = func(t types.Type, d int) bool {
+			if d > 4 {
+				return false
+			}
+			switch x := types.Unalias(t).Underlying().(type) {
+			case *types.Interface:
+				return x.NumMethods() == 0
+			case *types.Pointer:
+				return walk(x.Elem(), d+1)
+			case *types.Slice:
+				return walk(x.Elem(), d+1)
+			case *types.Map:
+				return walk(x.Elem(), d+1)
+			}
+			return false
+		}
+		return walk(t, 0)
+	}
+	bad := ""
+	n := 0
+	for _, h := range p.Helpers(eq) {
+		for _, c := range core.Calls(h) {
+			n++
+			switch core.CalleeName(c) {
+			case "encoding/json.Unmarshal":
+				dst := c.Common().Args[1]
+				if mi, ok := dst.(*ssa.MakeInterface); ok {
+					dst = mi.X
+				}
+				if hasEmptyIface(dst.Type()) {
+					bad = "json.Unmarshal into " + types.TypeString(dst.Type(), nil) + " at " + p.InstrPos(c)
+				}
+			case "reflect.DeepEqual":
+				bad = "reflect.DeepEqual at " + p.InstrPos(c)
+			}
+		}
+	}
+	r.Check(bad == "", rule, core.FuncName(eq), "values-compared-on-their-encoded-bytes", p.Pos(eq.Pos()), fmt.Sprintf("%d calls in Equal's unit: no decoding into interface{}, no deep comparison", n), "Value.Equal compares decoded values ("+bad+"): JSON numbers are compared as float64, so a change between two integers that round to the same float64 is not seen as a change - no event is published and the client keeps the old value")
 }
